@@ -11,6 +11,7 @@ The three `_counterexample` theorems show what the code AS FOUND does on three c
 (patches/C04-01…03 repair them).  Helper lemmas: Basics / Core / Inv / Deliver.
 -/
 import TboxModel.C04.Deliver
+import TboxModel.C04.Conc
 namespace Tbox.C04
 
 /-- event e is enabled and subscribed to g -/
@@ -75,15 +76,17 @@ theorem C04_disposition_restored (pre mid : List Op) (s0 s1 : State) (g : Nat)
   rw [← baseDisp_eq_os_of_no_subscriber s0 g hi0 hno0, ← baseDisp_eq_os_of_no_subscriber s1 g hi1 hno1]
   exact baseDisp_exec s0 mid g hi0 huser s1 h1
 
-/-- **the pre-existing handler is still invoked, exactly once per delivery**: whatever the subscription state, a
+/-- **the pre-existing handler is still invoked, exactly once per delivery**: whatever the subscription state and
+whatever the kernel answers to the handler's pipe writes (`wf`: full pipe, EINTR, EIO …), a
 delivery of g invokes the handler that is the process's own disposition of g (`baseDisp`: the one saved at the
 first subscription while tbox is installed, the current one otherwise) exactly once, and nothing else. -/
-theorem C04_chain_old_handler (ops : List Op) (s : State) (he : exec repaired init ops = some s) (g : Nat) :
-    (raise s g).1.calls = (match (baseDisp s g).kind with
-                           | .handler h => (h, g) :: s.calls
-                           | _ => s.calls) := by
+theorem C04_chain_old_handler (ops : List Op) (s : State) (he : exec repaired init ops = some s) (g : Nat)
+    (wf : List Nat) :
+    (raiseW s g wf).1.calls = (match (baseDisp s g).kind with
+                               | .handler h => (h, g) :: s.calls
+                               | _ => s.calls) := by
   have h := C04_reachable_inv ops s he
-  unfold raise baseDisp
+  unfold raiseW baseDisp
   by_cases hf : fdsOf s g = []
   · have hk : (s.os g).kind ≠ .tbox := fun hk => (h.core.osTbox g).1 hk hf
     simp only [hf, ↓reduceIte]
@@ -123,59 +126,178 @@ theorem C04_pass_drains (ops : List Op) (s : State) (he : exec repaired init ops
     (pass repaired s l ord).hasPipe l = false ∨ (pass repaired s l ord).pipe l = [] :=
   passLoop_drains l ord _ s (C04_reachable_inv ops s he) (Nat.lt_succ_self _)
 
+/-- the pipes after one delivery in a quiescent state: one number in the pipe of every subscribed loop whose write
+the kernel accepted -/
+theorem raiseW_pipe_quiescent (s : State) (h : Inv s) (hq : ∀ l, s.pipe l = []) (g : Nat) (wf : List Nat) (l : Nat) :
+    (raiseW s g wf).1.pipe l = if (s.os g).kind = .tbox ∧ l ∈ fdsOf s g ∧ l ∉ wf then [g] else [] := by
+  have hcap : 0 < capOf s := by unfold capOf; split <;> omega
+  unfold raiseW
+  split <;> rename_i hk
+  · simp [hk, hq]
+  · simp [hk, hq]
+  · simp [hk, hq]
+  · show appendPipes s.pipe g ((ctxOf s g).fds.filter (wrOk s wf)) l = _
+    simp only [appendPipes, hq, List.nil_append, hk, true_and, List.mem_filter, wrOk, List.length_nil, hcap,
+      decide_true, Bool.and_true, Bool.not_eq_eq_eq_not, Bool.not_true, List.contains_eq_mem, decide_eq_false_iff_not]
+    rfl
+
 /-- **every subscriber exactly once, on its own loop**: in any reachable quiescent state (no delivery pending in any
-pipe) deliver g once and then run the loops `ls` one pass each, in any order, any loop any number of times, each
-pass with any walking order.  If the callbacks of the subscribers of g do not themselves change subscriptions (the
-property's histories: subscription changes happen between deliveries), the number of callbacks (e, g') grows by
-exactly one iff g' = g, e was enabled and subscribed to g at the delivery and e's loop is among those that ran — and
+pipe) deliver g once — the kernel answering the handler's write to the pipes of the loops in `wf` with an error — and
+then run the loops `ls` one pass each, in any order, any loop any number of times, each pass with any walking order.
+If the callbacks of the subscribers of g do not themselves change subscriptions (the property's histories:
+subscription changes happen between deliveries), the number of callbacks (e, g') grows by exactly one iff g' = g, e was
+enabled and subscribed to g at the delivery, e's loop is among those that ran and the write to its pipe succeeded — and
 by zero otherwise (no callback for another signal, for a disabled or unsubscribed event, no second callback).
+With `wf = []` (`raise`) this is the property's clause; a failed write loses the delivery for that loop only.
 (`C04_callbacks_legit`: that callback is made by e's own loop; with scripts that do change subscriptions
 `C04_no_callback_on_disabled_or_destroyed` says who is NOT called.) -/
 theorem C04_every_subscriber_once (ops : List Op) (s : State) (he : exec repaired init ops = some s)
-    (hq : ∀ l, s.pipe l = []) (g : Nat) (ls : List (Nat × List Nat)) (hord : ∀ p ∈ ls, p.2.Nodup)
+    (hq : ∀ l, s.pipe l = []) (g : Nat) (wf : List Nat) (ls : List (Nat × List Nat)) (hord : ∀ p ∈ ls, p.2.Nodup)
     (hns : ∀ e, Subscribed s e g → (s.evs e).script = []) (e g' : Nat) :
-    cbCount (passes (raise s g).1 ls) e g' =
-      cbCount s e g' + (if g' = g ∧ Subscribed s e g ∧ (s.evs e).loop ∈ ls.map (·.1) then 1 else 0) := by
+    cbCount (passes (raiseW s g wf).1 ls) e g' =
+      cbCount s e g' + (if g' = g ∧ Subscribed s e g ∧ (s.evs e).loop ∈ ls.map (·.1) ∧ (s.evs e).loop ∉ wf
+                        then 1 else 0) := by
   have h := C04_reachable_inv ops s he
-  have h1 := raise_inv s g h
+  have h1 := raiseW_inv s g wf h
   -- the state after the delivery: same events, same log, pipes hold at most one g
-  have hev : (raise s g).1.evs = s.evs := by unfold raise; split <;> rfl
-  have hcb : (raise s g).1.cbs = s.cbs := by unfold raise; split <;> rfl
-  have hpipe : ∀ l, (raise s g).1.pipe l = if (s.os g).kind = .tbox ∧ l ∈ fdsOf s g then [g] else [] := by
-    intro l
-    unfold raise
-    split <;> rename_i hk
-    · simp [hk, hq]
-    · simp [hk, hq]
-    · simp [hk, hq]
-    · show appendPipes s.pipe g (ctxOf s g).fds l = _
-      simp only [appendPipes, hq, List.nil_append, hk, true_and]; rfl
-  have hq' : ∀ l, (raise s g).1.pipe l = [] ∨ (raise s g).1.pipe l = [g] := by
+  have hev : (raiseW s g wf).1.evs = s.evs := by unfold raiseW; split <;> rfl
+  have hcb : (raiseW s g wf).1.cbs = s.cbs := by unfold raiseW; split <;> rfl
+  have hpipe := raiseW_pipe_quiescent s h hq g wf
+  have hq' : ∀ l, (raiseW s g wf).1.pipe l = [] ∨ (raiseW s g wf).1.pipe l = [g] := by
     intro l; rw [hpipe]; split
     · right; rfl
     · left; rfl
-  have hns' : ∀ e, ((raise s g).1.evs e).enabled = true → g ∈ ((raise s g).1.evs e).sigs →
-      ((raise s g).1.evs e).script = [] := by
+  have hns' : ∀ e, ((raiseW s g wf).1.evs e).enabled = true → g ∈ ((raiseW s g wf).1.evs e).sigs →
+      ((raiseW s g wf).1.evs e).script = [] := by
     rw [hev]; exact fun e h1 h2 => hns e ⟨h1, h2⟩
   rw [cbCount_passes g ls _ h1 hq' hord hns' e g']
-  have hc0 : cbCount (raise s g).1 e g' = cbCount s e g' := by unfold cbCount; rw [hcb]
+  have hc0 : cbCount (raiseW s g wf).1 e g' = cbCount s e g' := by unfold cbCount; rw [hcb]
   rw [hc0, hev]
   congr 1
-  have hiff : (g' = g ∧ ((s.evs e).enabled = true ∧ g ∈ (s.evs e).sigs) ∧ (raise s g).1.pipe (s.evs e).loop = [g] ∧
-      (s.evs e).loop ∈ ls.map (·.1)) ↔ (g' = g ∧ Subscribed s e g ∧ (s.evs e).loop ∈ ls.map (·.1)) := ?_
-  · by_cases hc : g' = g ∧ Subscribed s e g ∧ (s.evs e).loop ∈ ls.map (·.1)
+  have hiff : (g' = g ∧ ((s.evs e).enabled = true ∧ g ∈ (s.evs e).sigs) ∧ (raiseW s g wf).1.pipe (s.evs e).loop = [g] ∧
+      (s.evs e).loop ∈ ls.map (·.1)) ↔
+      (g' = g ∧ Subscribed s e g ∧ (s.evs e).loop ∈ ls.map (·.1) ∧ (s.evs e).loop ∉ wf) := ?_
+  · by_cases hc : g' = g ∧ Subscribed s e g ∧ (s.evs e).loop ∈ ls.map (·.1) ∧ (s.evs e).loop ∉ wf
     · rw [if_pos hc, if_pos (hiff.2 hc)]
     · rw [if_neg hc, if_neg (fun hh => hc (hiff.1 hh))]
   constructor
-  · rintro ⟨h1, h2, _, h4⟩; exact ⟨h1, h2, h4⟩
-  · rintro ⟨h1, hs, h4⟩
+  · rintro ⟨h1, h2, h3, h4⟩
+    refine ⟨h1, h2, h4, ?_⟩
+    rw [hpipe] at h3
+    by_cases hw : (s.evs e).loop ∈ wf
+    · simp [hw] at h3
+    · exact hw
+  · rintro ⟨h1, hs, h4, hw⟩
     -- a subscriber: tbox's handler is installed and e's loop is registered
     have hm : e ∈ subsOf s (s.evs e).loop g := (h.mem _ g e).2 ⟨hs.1, hs.2, rfl⟩
     have hne : subsOf s (s.evs e).loop g ≠ [] := ne_nil_iff_exists_mem.2 ⟨e, hm⟩
     have hfd : (s.evs e).loop ∈ fdsOf s g := (h.core.fdsIff g _).2 hne
     have hk : (s.os g).kind = .tbox := (h.core.osTbox g).2 (ne_nil_iff_exists_mem.2 ⟨_, hfd⟩)
     refine ⟨h1, hs, ?_, h4⟩
-    rw [hpipe]; simp [hk, hfd]
+    rw [hpipe]; simp [hk, hfd, hw]
+
+/-! ### round 4: bursts and the capacity of the signal pipe, kernel answers to `write()` / `read()` -/
+
+/-- **a burst of n deliveries without a loop pass** (each delivery raised on its own; nothing pending in the kernel):
+from any reachable quiescent state, after n deliveries of g the pipe of every loop with a subscriber of g holds
+`min n capacity` copies of g and every other pipe is empty.  (`C04_chain_old_handler` applies to each of the n deliveries:
+the old handler is invoked n times, whatever fits.) -/
+theorem C04_burst_pipe (ops : List Op) (s : State) (_he : exec repaired init ops = some s) (g n l : Nat)
+    (hq : s.pipe l = []) :
+    exec repaired s (List.replicate n (Op.raise g)) = some (raises s g n) ∧
+    (raises s g n).pipe l =
+      List.replicate (if (s.os g).kind = .tbox ∧ l ∈ fdsOf s g then min n (capOf s) else 0) g := by
+  refine ⟨exec_raises g n s, ?_⟩
+  have := raises_pipe g n s 0 l (by rw [hq]; split <;> simp)
+  simpa using this
+
+-- OPEN (full statement, false): after ANY burst every delivery is pending for every subscribed loop:
+--   theorem C04_burst_no_loss … : (raises s g n).pipe l = List.replicate n g
+/-- **no delivery is lost while the burst fits the pipe** (decidable hypothesis `n ≤ capOf s`: 16384 pending numbers with
+the default 64 KiB pipe, 1024 with a one-page pipe) -/
+theorem C04_burst_no_loss_partial (ops : List Op) (s : State) (he : exec repaired init ops = some s)
+    (g n l : Nat) (hq : s.pipe l = []) (hn : n ≤ capOf s) (e : Nat) (hs : Subscribed s e g) (hl : (s.evs e).loop = l) :
+    (raises s g n).pipe l = List.replicate n g := by
+  have h := C04_reachable_inv ops s he
+  have hfd : l ∈ fdsOf s g := ((C04_ctx_matches ops s he).2.1 g l).2 ⟨e, hs, hl⟩
+  have hk : (s.os g).kind = .tbox := (h.core.osTbox g).2 (ne_nil_iff_exists_mem.2 ⟨_, hfd⟩)
+  rw [(C04_burst_pipe ops s he g n l hq).2]
+  simp only [hk, hfd, and_self, ↓reduceIte]
+  congr 1; omega
+
+/-- a persistent event on loop 0 subscribed to signal 1, nothing pending -/
+def burstOps : List Op := [.newEv 0 [], .init 0 [1] false, .enable 0]
+
+/-- **beyond the capacity deliveries are lost**: one delivery more than the pipe holds, made one at a time with the
+loop not running in between, and the subscribed loop has only `capacity` numbers pending: the handler's `write()` got
+EAGAIN and `SignalHandlerFunc` ignores the result (both default and one-page pipes). -/
+theorem C04_burst_overflow_counterexample :
+    ∃ s, exec repaired init burstOps = some s ∧ s.pipe 0 = [] ∧ Subscribed s 0 1 ∧
+      (raises s 1 (capOf s + 1)).pipe 0 = List.replicate (capOf s) 1 ∧
+      (raises s 1 (capOf s + 1)).pipe 0 ≠ List.replicate (capOf s + 1) 1 := by
+  have he : exec repaired init burstOps = some (burstOps.foldl (step repaired) init) := exec_foldl _ _ _ (by decide)
+  refine ⟨burstOps.foldl (step repaired) init, he, by decide, by decide, ?_⟩
+  have hb := (C04_burst_pipe burstOps _ he 1 (capOf (burstOps.foldl (step repaired) init) + 1) 0 (by decide)).2
+  have hc : ((burstOps.foldl (step repaired) init).os 1).kind = .tbox ∧ 0 ∈ fdsOf (burstOps.foldl (step repaired) init) 1 := by
+    decide
+  rw [if_pos hc] at hb
+  have hmin : min (capOf (burstOps.foldl (step repaired) init) + 1) (capOf (burstOps.foldl (step repaired) init)) =
+      capOf (burstOps.foldl (step repaired) init) := by omega
+  rw [hmin] at hb
+  refine ⟨hb, ?_⟩
+  rw [hb]
+  intro hh
+  have := congrArg List.length hh
+  simp at this
+
+/-- **`read()` answers**: whatever the kernel answers to the reads of `onSignal` (short reads, errors) every clause
+proved over `exec` holds (they are ordinary ops); when no read fails the loop still ends with the pipe closed or
+empty … -/
+theorem C04_passC_drains_partial (ops : List Op) (s : State) (he : exec repaired init ops = some s) (l : Nat)
+    (ord : List Nat) (cs : List (Option Nat)) (hcs : ∀ c ∈ cs, c ≠ none) :
+    (passC repaired s l ord cs).hasPipe l = false ∨ (passC repaired s l ord cs).pipe l = [] :=
+  passLoopC_drains l ord _ cs s (C04_reachable_inv ops s he) hcs (Nat.lt_succ_self _)
+
+/-- … and `passC` without injected answers is `pass` -/
+theorem C04_passC_nil (s : State) (l : Nat) (ord : List Nat) : passC repaired s l ord [] = pass repaired s l ord :=
+  passLoopC_nil repaired l ord _ s
+
+/-- a failing `read()` (EINTR, EIO …; `none`) ends the pass with the numbers still pending — the next pass delivers
+them (the read end stays readable): nothing is lost, the callback is late -/
+theorem C04_read_error_counterexample :
+    let s := (burstOps ++ [Op.raise 1, Op.raise 1]).foldl (step repaired) init
+    (passC repaired s 0 [] [none]).pipe 0 = [1, 1] ∧ cbCount (passC repaired s 0 [] [none]) 0 1 = 0 ∧
+    cbCount (pass repaired (passC repaired s 0 [] [none]) 0 []) 0 1 = 2 ∧
+    cbCount (passC repaired s 0 [] [some 1, none]) 0 1 = 1 := by decide
+
+/-- the count computed by `onSignal` from `read()`'s result: for the results the loop body accepts (0 < rsize ≤ 40 bytes)
+the conversion of `ssize_t` to `size_t` at `rsize / sizeof(int)` (tools/narrowing/C04.txt, the only line) is exact and
+the count is at most the 10 elements of `signo_array` -/
+theorem C04_read_count_width (rsize : Int) (h0 : 0 < rsize) (h1 : rsize ≤ 40) :
+    (BitVec.ofInt 64 rsize).toNat = rsize.toNat ∧ (BitVec.ofInt 64 rsize).toNat / 4 ≤ 10 := by
+  have : (BitVec.ofInt 64 rsize).toNat = rsize.toNat := by
+    rw [BitVec.toNat_ofInt]; omega
+  exact ⟨this, by rw [this]; omega⟩
+
+/-- **signal numbers outside the valid range** (ids 7… = 65, INT_MAX, 0, negative, glibc's reserved 32; also SIGKILL /
+SIGSTOP): `enable()` of an event whose set contains one fails and leaves no subscription and no disposition changed,
+for every reachable state (second half of `C04_installed_while_subscribed`); here: the concrete history of the tie -/
+theorem C04_invalid_signal_total :
+    let ops : List Op := [.setDisp 1 { kind := .handler 2 }, .newEv 0 [], .init 0 [10, 1, 7] false, .enable 0]
+    (exec repaired init ops).isSome = true ∧
+    (∀ g < 12, ¬ Subscribed (ops.foldl (step repaired) init) 0 g) ∧
+    ((ops.foldl (step repaired) init).os 1) = { kind := .handler 2 } ∧
+    (∀ l < 3, (ops.foldl (step repaired) init).hasPipe l = false) := by decide
+
+/-- **a callback on loop 0 acts on events of loop 1** (disable, re-initialise + enable, destroy): the invariant theorems
+above cover such scripts (no restriction on the loop in `act`); here a concrete run: event 1 (loop 1) is disabled by
+the callback of event 0 (loop 0) before loop 1 runs, so its pending delivery is dropped with its pipe -/
+theorem C04_cross_loop_script_example :
+    let ops : List Op := [.newEv 0 [.disable 1], .newEv 1 [], .init 0 [1] false, .init 1 [1] false, .enable 0, .enable 1,
+                          .raise 1, .pass 0 [], .pass 1 []]
+    (exec repaired init ops).isSome = true ∧
+    ((ops.foldl (step repaired) init).cbs.map (fun c => (c.ev, c.loop))) = [(0, 0)] ∧
+    fdsOf (ops.foldl (step repaired) init) 1 = [0] ∧ (ops.foldl (step repaired) init).hasPipe 1 = false := by decide
 
 /-! ### the code as found: three concrete histories (each replayed on /repo by the check) -/
 
@@ -250,3 +372,61 @@ example : ((demo ++ [Op.raise 1, Op.pass 0 [], Op.init 0 [2] false, Op.destroy 1
 example : (exec repaired init (demo ++ [Op.raise 1, Op.pass 0 [], Op.init 0 [2] false, Op.destroy 1])).isSome = true := by decide
 
 end Tbox.C04
+
+/-! ### round 4: step-level model of the `_signal_ctxs_` critical sections (Conc.lean) -/
+namespace Tbox.C04.Conc
+
+/-- every interleaving of the atomic steps of any number of threads (enter / touch / install / insert / leave of
+`subscribeSignal`, enter / eraseFd / restore / eraseCtx / leave of `unsubscribeSignal`), of deliveries on any thread
+that does not block the signal, and of the application's own `sigaction` calls keeps the step-level invariant -/
+theorem C04_cs_reachable_inv (as : List Step) (s : State) (hr : run {} as = some s) : Inv s :=
+  run_inv {} as s init_inv hr
+
+/-- **mutual exclusion**: two different threads are never both inside a critical section -/
+theorem C04_cs_mutex (as : List Step) (s : State) (hr : run {} as = some s) (t u : Nat)
+    (ht : s.pc t ≠ .idle) (hu : s.pc u ≠ .idle) : t = u := by
+  have h := C04_cs_reachable_inv as s hr
+  have h1 := h.holder t ht
+  have h2 := h.holder u hu
+  rw [h1] at h2; cases h2; rfl
+
+/-- **bookkeeping at every quiescent point** (nobody inside a critical section), for every interleaving: tbox's
+handler is installed iff some thread's fd is registered; then the ctx entry exists and its saved handler is the
+application's disposition; otherwise there is no entry and the kernel disposition is the application's own -/
+theorem C04_cs_bookkeeping (as : List Step) (s : State) (hr : run {} as = some s) (hq : s.lock = none) :
+    (s.fds = [] → s.ctx = false ∧ s.os = some s.base) ∧ (s.fds ≠ [] → s.ctx = true ∧ s.os = none ∧ s.old = s.base) := by
+  have h := (C04_cs_reachable_inv as s hr).phase
+  simp only [holderPc, hq, phaseInv] at h
+  exact h
+
+/-- **the sigprocmask discipline**: a thread inside a critical section blocks the signal (so the handler never runs
+on it: every logged run has `onHolder = false`), and a thread outside has its mask restored (deliveries reach it) -/
+theorem C04_cs_mask_discipline (as : List Step) (s : State) (hr : run {} as = some s) :
+    (∀ t, s.pc t ≠ .idle → s.mask t = true) ∧ (∀ t, s.pc t = .idle → s.mask t = false) ∧
+    (∀ r ∈ s.log, r.onHolder = false) := by
+  have h := C04_cs_reachable_inv as s hr
+  exact ⟨fun t ht => (h.blocked t ht).1, h.open_, fun r hr => (h.logOk r hr).1⟩
+
+/-- **a delivery never mutates the map**: whenever tbox's handler can run — at EVERY step-level state, also in the
+middle of another thread's critical section — the entry `_signal_ctxs_[signo]` exists (`operator[]` does not insert);
+and a delivery while nobody is inside a critical section writes to a non-empty set of pipes -/
+theorem C04_cs_deliveries_find_ctx (as : List Step) (s : State) (hr : run {} as = some s) :
+    ∀ r ∈ s.log, r.found = true ∧ (r.holderPc = .idle → r.fds ≠ []) :=
+  fun r hm => ((C04_cs_reachable_inv as s hr).logOk r hm).2
+
+/-- the per-thread mask does NOT keep a delivery to another thread out of a critical section: thread 0 has installed
+tbox's handler and not yet registered its fd; the delivery on thread 1 finds the entry with no fd to write to.  (Not a
+violation of the property: its quantifier excludes deliveries while a subscription change is in progress.) -/
+theorem C04_cs_handler_on_other_thread_counterexample :
+    (run {} [.enterS 0, .touch 0, .install 0, .deliver 1]).map (fun s => s.log) =
+      some [{ thread := 1, holderPc := .sInstalled, onHolder := false, found := true, fds := [] }] ∧
+    (run {} [.enterS 0, .touch 0, .install 0, .deliver 0]) = none := by
+  constructor <;> decide
+
+/-- non-vacuity: two threads subscribe, a delivery reaches both, the application changes its disposition afterwards -/
+example : ((run {} [.userSet 5, .enterS 0, .touch 0, .install 0, .insert 0, .leave 0, .enterS 1, .touch 1, .install 1,
+    .insert 1, .leave 1, .deliver 2, .enterU 0, .eraseFd 0, .restore 0, .eraseCtx 0, .leave 0, .enterU 1, .eraseFd 1,
+    .restore 1, .eraseCtx 1, .leave 1, .userSet 7]).map fun s => (s.os, s.ctx, s.fds, s.log.map (·.fds))) =
+    some (some 7, false, [], [[1, 0]]) := by decide
+
+end Tbox.C04.Conc
